@@ -1,3 +1,4 @@
+// NOT REGISTERED (probed: the single-change harness exhausts 24 GB in the solver; see DESIGN.md C14). Kept for a later, smaller attempt.
 //! In-crate Kani harness for handlers/sync.rs (mounted as `handlers::sync::verif_harness`).
 use super::apply_content_changes;
 use tower_lsp::lsp_types::{Position, Range, TextDocumentContentChangeEvent};
